@@ -15,6 +15,9 @@ set_option linter.unusedVariables false
 
 variable {R : Type} [CommRing R] [DecidableEq R]
 
+theorem assert_true' {c : Bool} (h : c = true) : Res.assert c = ok () := by simp [Res.assert, h]
+theorem assert_false' {c : Bool} (h : c = false) : Res.assert c = panic := by simp [Res.assert, h]
+
 /-! ### sums over one column / over a triplet list -/
 
 @[simp] theorem sumAt_nil (i : Nat) : sumAt ([] : List (Nat × R)) i = 0 := rfl
@@ -542,5 +545,22 @@ theorem submat_reject (A : SpMat R) (i0 i1 j0 j1 : Nat)
   · have : (decide (i0 ≤ i1) && decide (i1 ≤ A.nrows)) = false := by
       rw [Bool.and_eq_false_iff]; simp only [decide_eq_false_iff_not]; omega
     simp [Res.assert, this]
+
+/-! ### sparse vectors -/
+
+def SpVec.WF (v : SpVec R) : Prop := v.toMat.WF
+
+theorem SpVec.toMat_entry (v : SpVec R) (i : Nat) : v.toMat.entry i 0 = v.entry i := rfl
+
+theorem intoSpVec_spec (A : SpMat R) (hA : A.WF) (h : A.ncols = 1) :
+    ∃ v, A.intoSpVec = ok v ∧ v.dim = A.nrows ∧ v.WF ∧ ∀ i, v.entry i = A.entry i 0 := by
+  refine ⟨⟨A.nrows, A.cols.getD 0 []⟩, by simp [SpMat.intoSpVec, h], rfl, ?_, fun i => rfl⟩
+  have hl := hA.len
+  rw [h] at hl
+  obtain ⟨c, hc⟩ := List.length_eq_one_iff.mp hl
+  unfold SpVec.WF SpVec.toMat
+  simp only [hc, List.getD_cons_zero]
+  exact ⟨rfl, by simpa [hc] using hA.bound, by simpa [hc] using hA.sorted⟩
+
 
 end Yuiv.C13
